@@ -99,8 +99,14 @@ pub fn check(r: &ExecResult, prog: &Program) -> Vec<Finding> {
     let shared: Vec<u32> = cbs_of(r, "notify").filter(|c| c.comp == 3).map(|c| c.act).collect();
     if prog.main.iter().any(|o| matches!(o, Op::AddSub { id: 3, .. })) {
         let p = pipe(r);
+        let unsubbed_from_a = calls(r, "unsubscribe").any(|c| c.a == 3);
         let mut want: Vec<u32> = p.order.iter().copied().filter(|a| p.notifies[a]).collect();
         let mut got = shared.clone();
+        if unsubbed_from_a {
+            // store A's notifications may stop at the unsubscribe; store B's must all arrive
+            want.retain(|a| store_of_action(*a as i64) == 1);
+            got.retain(|a| store_of_action(*a as i64) == 1);
+        }
         want.sort();
         got.sort();
         if want != got {
@@ -115,6 +121,8 @@ pub fn scenarios(tier: Tier) -> Vec<Scenario> {
     let mut v = vec![];
     // end_a: how store 0 ends while store 1 is busy: 0 stop(), 1 drop(DroppableStore)
     let mut add = |same_cfg: bool, shared_sub: bool, end_a: u8, k: u32, bound: u32| {
+        // end_a == 2: store A keeps running, but the shared subscriber is unsubscribed from A
+        let unsub_shared = end_a == 2;
         let mut a = StoreSpec::new(1, 1, Pol::Block);
         a.name = Some("same");
         let mut b = if same_cfg { StoreSpec::new(1, 1, Pol::Block) } else { StoreSpec::new(2, 2, Pol::Block) };
@@ -129,7 +137,13 @@ pub fn scenarios(tier: Tier) -> Vec<Scenario> {
             main.push(Op::AddSub { id: 3, gated: false, reads: false });
             main.push(Op::On(1, Box::new(Op::AddSharedSub { id: 3 })));
         }
+        if unsub_shared {
+            prog = prog.thread_on("ua", 0, vec![Op::Unsub(3)]);
+        }
         main.push(Op::SpawnAll);
+        if unsub_shared {
+            main.push(Op::JoinAll);
+        }
         main.push(if end_a == 1 { Op::DropDroppable } else { Op::Stop });
         main.extend([
             Op::Dispatch(Act::new(901)),
@@ -154,6 +168,7 @@ pub fn scenarios(tier: Tier) -> Vec<Scenario> {
     match tier {
         Tier::Quick => {
             add(true, true, 0, 1, 2);
+            add(true, true, 2, 1, 1);
             add(false, false, 1, 2, 1);
             add(true, false, 0, 2, 1);
         }
@@ -163,6 +178,10 @@ pub fn scenarios(tier: Tier) -> Vec<Scenario> {
                     for end_a in 0..=1u8 {
                         add(same, shared, end_a, 1, 3);
                         add(same, shared, end_a, 2, 2);
+                    }
+                    if shared {
+                        add(same, shared, 2, 1, 2);
+                        add(same, shared, 2, 2, 1);
                     }
                 }
             }
